@@ -124,7 +124,7 @@ var arbiterCopyMask = func() map[string]bool {
 // dposInternal: DPoS fields with listed C21 findings that neither the committee
 // nor the DPoS calls into the committee read (the degradation state machine's
 // state, the cache of the CR nodes' owner keys).
-var dposInternal = map[string]bool{"degradation.state": true, "State.StateKeyFrame.CurrentCRNodeOwnerKeys": true}
+var dposInternal = map[string]bool{"degradation": true, "State.StateKeyFrame.CurrentCRNodeOwnerKeys": true, "State.StateKeyFrame.NextCRNodeOwnerKeys": true}
 
 // ArbiterCopyMask lists the generalised paths of the vote maps inside the
 // Producer copies held by the arbiter lists (shared with the live producer
@@ -137,6 +137,20 @@ func ArbiterCopyMask() map[string]bool {
 	}
 	return m
 }
+
+// dposBenign: dposInternal plus the representation residues listed for C21
+// (zero-valued map entries via Differ.ZeroEntryAbsent, the vote maps of the
+// arbiter lists' producer copies).
+var dposBenign = func() map[string]bool {
+	m := map[string]bool{}
+	for k := range dposInternal {
+		m[k] = true
+	}
+	for k := range arbiterCopyMask {
+		m[k] = true
+	}
+	return m
+}()
 
 type view struct {
 	name string
@@ -170,14 +184,20 @@ func (r *run) compare(clause string, h uint32, got, want *obs) (clean, ok bool) 
 			if os.Getenv("RBK_DEBUG") != "" {
 				fmt.Printf("RBK other side: %s height %d %s = %s want %s\n", clause, h, df.Path, df.A, df.B)
 			}
-			if r.cfg.Side == CR && (&canon.Differ{Mask: dposInternal}).First(v.a, v.b) == nil {
-				// listed C21 findings in fields the committee never sees: this
-				// side is still compared, the instance is resynchronised after
+			if r.cfg.Side == CR && (&canon.Differ{ZeroEntryAbsent: true, Mask: dposBenign}).First(v.a, v.b) == nil {
+				// listed C21 findings in fields the committee never sees or mere
+				// representation residues: this side is still compared, the
+				// instance is resynchronised after
 				vk.Class("other-side-diverged-in-dpos-internal-fields/" + clause)
 				otherDiverged = true
 				continue
 			}
 			vk.Class("other-side-diverged/" + clause)
+			if os.Getenv("RBK_DEBUG") != "" {
+				if m := (&canon.Differ{ZeroEntryAbsent: true, Mask: dposBenign}).First(v.a, v.b); m != nil {
+					fmt.Printf("RBK other side (not benign): %s height %d %s = %s want %s\n", clause, h, m.Path, m.A, m.B)
+				}
+			}
 			return false, true
 		}
 	}
